@@ -717,16 +717,16 @@ def run_case(case):
 def gen_cases(tier, seed):
     q = tier == "quick"
     cases = [{"kind": "liesel", "idx": i, "seed": seed, "n_calls": 30 if q else 60, "cost": 3}
-             for i in range(200 if q else 2000)]
-    for i in range(40 if q else 600):
+             for i in range(200 if q else 3000)]
+    for i in range(40 if q else 1000):
         cases.append({"kind": "realistic", "idx": 50000 + i, "seed": seed, "n_calls": 12 if q else 25, "cost": 4})
-    for i in range(6 if q else 60):
+    for i in range(6 if q else 200):
         cases.append({"kind": "edge", "idx": 80000 + i, "seed": seed, "n_calls": 16, "cost": 2})
-    for i in range(6 if q else 60):
+    for i in range(6 if q else 200):
         cases.append({"kind": "numpy", "idx": 90000 + i, "seed": seed, "n_calls": 12, "cost": 1})
-    for i in range(6 if q else 40):
+    for i in range(6 if q else 200):
         cases.append({"kind": "collision", "idx": 70000 + i, "seed": seed, "n_calls": 15, "cost": 1})
-    for i in range(30 if q else 300):
+    for i in range(30 if q else 800):
         cases.append({"kind": "simple", "iface": ["dict", "dataclass", "namedtuple", "dataclass_post"][i % 4], "idx": i,
                       "seed": seed, "n_calls": 25, "cost": 1})
     return cases
